@@ -12,7 +12,8 @@ All randomness comes from the rng handed in."""
 import netgen
 
 
-def build_dense(rng, depth=3, unnamed_rate=0.1, wire_rate=0.85, passthrough_rate=0.3):
+def build_dense(rng, depth=3, unnamed_rate=0.1, wire_rate=0.85, passthrough_rate=0.3, top_as_child=False,
+                unreferenced_child=False):
     b = netgen.Builder()
     info = {'defs': {}, 'layers': [], 'ports': {}, 'cables': {}, 'children': {}}
 
@@ -43,7 +44,22 @@ def build_dense(rng, depth=3, unnamed_rate=0.1, wire_rate=0.85, passthrough_rate
             ports.append((p, pins))
         info['ports'][d] = ports
         info['children'][d] = []
-        info['cables'][d] = []
+        cables = []
+        if rng.random() < 0.55:
+            # a leaf with contents but no children: its port pins are wired inside (feed-through
+            # pairs, single stubs), so that nets cross the lowest boundary as well
+            pins = [pin for _, pp in ports for pin in pp if rng.random() < 0.8]
+            rng.shuffle(pins)
+            j = 0
+            while pins:
+                k = 2 if (len(pins) >= 2 and rng.random() < 0.4) else 1
+                grp, pins = pins[:k], pins[k:]
+                c, wires = b.cable(d, nm('lc', j), 1)
+                j += 1
+                cables.append((c, wires))
+                for pin in grp:
+                    b.connect_inner(wires[0], pin)
+        info['cables'][d] = cables
         layer0.append(d)
     info['layers'].append(layer0)
 
@@ -68,6 +84,8 @@ def build_dense(rng, depth=3, unnamed_rate=0.1, wire_rate=0.85, passthrough_rate
                 ref = rng.choice(pool)
                 x = b.child(d, nm('u', j), ref)
                 kids.append((x, ref))
+            if unreferenced_child and layer == depth:
+                b.child(d, nm('z', 0), None)   # an instance without a reference (black hole)
             inner = [pin for _, pins in ports for pin in pins]
             outer = [(x, pin) for x, ref in kids for _, pins in info['ports'][ref] for pin in pins]
             rng.shuffle(inner)
@@ -109,9 +127,21 @@ def build_dense(rng, depth=3, unnamed_rate=0.1, wire_rate=0.85, passthrough_rate
         lower_defs += this
     top_def = info['layers'][-1][0]
     info['top_def'] = top_def
-    t = b.top_from_definition(n, top_def)
-    if rng.random() < 0.9:
-        b.name(t, 'top')
+    if top_as_child:
+        # the top instance is a child of a wrapper definition that is not part of the design, and
+        # its pins are wired there (the wrapper's wires must never show up in an answer)
+        wrap = b.definition(libs[-1], 'WRAP')
+        t = b.child(wrap, 'wrapped_top', top_def)
+        other = b.child(wrap, 'beside', rng.choice(info['layers'][0]))
+        pins = [(t, pin) for _, pp in info['ports'][top_def] for pin in pp]
+        c, wires = b.cable(wrap, 'wc', max(1, len(pins)))
+        for w, (x, pin) in zip(wires, pins):
+            b.connect_outer(w, x, pin, stored=True)
+        b.top_instance(n, t)
+    else:
+        t = b.top_from_definition(n, top_def)
+        if rng.random() < 0.9:
+            b.name(t, 'top')
     info['top'] = t
     info['all_defs'] = lower_defs
     info['next'] = b.next
@@ -123,7 +153,14 @@ def build(rng, kind=None, depth=None):
     kind = kind or rng.choice(['dense', 'dense', 'dense', 'sparse'])
     depth = depth or rng.choice([1, 2, 2, 3, 3, 3, 4])
     if kind == 'dense':
-        ops, info = build_dense(rng, depth=depth, unnamed_rate=rng.choice([0.0, 0.1, 0.4]))
+        tac = rng.random() < 0.08
+        unref = rng.random() < 0.05
+        ops, info = build_dense(rng, depth=depth, unnamed_rate=rng.choice([0.0, 0.1, 0.4]), top_as_child=tac,
+                                unreferenced_child=unref)
+        if tac:
+            kind = 'dense+top-as-child'
+        if unref:
+            kind += '+unreferenced-instance'
     else:
         ops, info = netgen.build(rng, depth=depth, unnamed_rate=rng.choice([0.0, 0.2]))
         info['next'] = None
